@@ -130,7 +130,7 @@ def prepare(items, w):
     return ecases, defs
 
 
-def run_refine(items, w=2, monitors=True, max_level=6000, max_alloc=256, timeout=1200, workers=None, keep=None):
+def run_refine(items, w=2, monitors=True, max_level=6000, max_alloc=256, timeout=1200, workers=None, keep=None, heap='8g'):
     """Run items (all of word size w) on spec/Refine.tla.  Sets it.result for every conclusive or inconclusive
     item: dict(status, hst, agree, halted, fault, alarm, level, wrap, mobs, hobs) or None (out of fuel)."""
     d = keep or common.scratch('hvref_')
@@ -141,7 +141,7 @@ def run_refine(items, w=2, monitors=True, max_level=6000, max_alloc=256, timeout
                 return None
             write_batch(d, 'Batch', 'Refine', ecases, w, defs=defs,
                         consts={'Monitors': 'TRUE' if monitors else 'FALSE', 'MaxLevel': max_level, 'MaxAlloc': max_alloc})
-        r = tlc.run(d, 'Batch', timeout=timeout, workers=workers)
+        r = tlc.run(d, 'Batch', timeout=timeout, workers=workers, heap=heap)
         completed = 'Model checking completed. No error has been found' in r.out
         if (r.errors and not r.prints) or (not r.prints and not r.timed_out and not completed):
             raise common.Machinery('TLC failed: %s\n%s' % (r.errors[:3], r.out[-2500:]))
